@@ -224,7 +224,7 @@ def _num(x):
     return x
 
 
-def compare_outputs(a, b, scale, graph_tol=0.011):
+def compare_outputs(a, b, scale, graph_tol=0.011, exact=False):
     """Return None if equal within 1e-9*scale, else a description + generalised field.
     Graph payloads: same structure, values within max(1e-9*scale, graph_tol) (they are rounded for display)."""
     if a["name"] != b["name"]:
@@ -233,7 +233,11 @@ def compare_outputs(a, b, scale, graph_tol=0.011):
         return "record_names", f"record names differ: {[t['name'] for t in a['targets']][:4]} vs {[t['name'] for t in b['targets']][:4]}"
     if a["graph_keys"] != b["graph_keys"]:
         return "graph_keys", "graph set keys differ"
-    eps = 1e-9 * scale
+    # every channel except the workbook hands the reader the exact decimal text of each number (repr round-trips), so
+    # their targets must agree to the last bit; a workbook keeps 15 significant digits, hence the tolerance there only
+    eps = 0.0 if exact else 1e-9 * scale
+    if exact and graph_tol is not None:
+        graph_tol = 0.0
 
     def close(x, y):
         x, y = _num(x), _num(y)
@@ -299,7 +303,7 @@ class C16(World):
         "or an export."
     )
     assumptions = [
-        "numbers are decimals with <= 6 fractional digits so every channel round-trips them exactly; cross-file comparisons use 1e-9 of total duty, in-memory forms are compared exactly",
+        "numbers include full-precision floats; every channel except the workbook must agree with the plain dictionary to the last bit (their text round-trips exactly), the workbook (15 significant digits) within 1e-9 of total duty",
         "the workbook channel is compared modulo the workbook reader's documented label normalisation (strip, '.' -> '-', digit-only labels prefixed); every other channel must reproduce labels exactly, including number-like and NA-like ones; hostile sheet-name characters go through dict/JSON/model channels only",
         "utilities in file channels are active with no preset duty (the sheet layout cannot express either)",
         "case-insensitive sheet-name clashes and edge apostrophes are counted, not judged",
@@ -328,7 +332,15 @@ class C16(World):
         for k in range(swarm["n_problems"]):
             p = problems.generate(pr, small=True)
             p.pop("zone_tree", None)
-            if pr.random() < 0.2:
+            if pr.random() < 0.3:
+                # full-precision numbers (16-17 significant digits), as produced by arithmetic upstream of the input file
+                for rec in p["streams"]:
+                    rec["heat_flow"] = rec["heat_flow"] / 3.0 * 1.1
+                    rec["t_supply"] = rec["t_supply"] + 0.1 + 0.2
+                for rec in p["utilities"]:
+                    rec["t_supply"] = rec["t_supply"] / 7.0 * 7.1
+                    rec["t_target"] = rec["t_target"] / 7.0 * 7.1
+            elif pr.random() < 0.2:
                 # duties of another order of magnitude (W-scale or GW-scale numbers), still <= 6 decimals
                 f = pr.choice([0.001, 1000.0, 250.0])
                 for rec in p["streams"]:
@@ -382,6 +394,8 @@ class C16(World):
             for u in p["utilities"]:
                 u["active"] = True
                 u["heat_flow"] = None
+                if isinstance(u.get("price"), dict):
+                    u["price"] = None  # a blank price cell
                 if not hostile and pr.random() < 0.12:
                     u[pr.choice(BLANKABLE)] = None  # a cell left blank: the documented default applies
             has_opts = (not hostile) and pr.random() < 0.3
@@ -581,7 +595,7 @@ class C16(World):
                 return
             got = simplify_output(res)
             tick("channel_eq")
-            d = compare_outputs(got, ref, total_duty(probs[p]["data"]))
+            d = compare_outputs(got, ref, total_duty(probs[p]["data"]), exact=(m["ch"] != "xlsx"))
             if d:
                 V("channel_eq", f"{m['ch']}|{d[0]}|{fault_in_force}", step, f"channel {m['ch']} vs plain dict through the service: {d[1]}")
             elif m["exact"]:
@@ -886,7 +900,7 @@ class C16(World):
                         if rk != "ok":
                             V("channel_eq", f"ctor_{ch}|ref_raises|none", step, "run=True constructor succeeded but the plain-dict service raises")
                         else:
-                            dd = compare_outputs(simplify_output(val), ref, total_duty(prob["data"]))
+                            dd = compare_outputs(simplify_output(val), ref, total_duty(prob["data"]), exact=(ch != "xlsx"))
                             if dd:
                                 V("channel_eq", f"ctor_{ch}|{dd[0]}|none", step, f"run=True constructor via {ch} vs plain dict: {dd[1]}")
                         if out_dir:
